@@ -97,18 +97,18 @@ type hbObj struct {
 }
 
 type chState struct {
-	hb     hbObj
-	cap, n int
-	closed bool
-	recvq  []*waiter
-	sendq  []*waiter
-	timer  bool
-	at     time.Duration
-	fired  bool
+	hb      hbObj
+	cap, n  int
+	closed  bool
+	recvq   []*waiter
+	sendq   []*waiter
+	timer   bool
+	at      time.Duration
+	fired   bool
 	stopped bool
-	fn     func() // AfterFunc
-	seq    int
-	keep   any // keeps the real channel alive so its address is not reused within an execution
+	fn      func() // AfterFunc
+	seq     int
+	keep    any // keeps the real channel alive so its address is not reused within an execution
 }
 
 type waiter struct {
@@ -119,15 +119,15 @@ type waiter struct {
 
 // Choice is one recorded decision.
 type Choice struct {
-	Kind   byte // 't' thread, 's' select case, 'e' environment answer, 'c' clock/timer order
-	N      int  // number of alternatives
-	Picked int
-	AltCost uint8 // deviation cost of every alternative other than 0
-	Sig    uint64  // signature of the alternatives (replay validation)
-	State  [2]uint64
-	Last   uint64
-	Desc   string
-	Alts   []string
+	Kind    byte // 't' thread, 's' select case, 'e' environment answer, 'c' clock/timer order
+	N       int  // number of alternatives
+	Picked  int
+	AltCost uint8  // deviation cost of every alternative other than 0
+	Sig     uint64 // signature of the alternatives (replay validation)
+	State   [2]uint64
+	Last    uint64
+	Desc    string
+	Alts    []string
 }
 
 // Options configure one execution.
@@ -160,33 +160,34 @@ type Pick struct {
 
 // Exec is one execution.
 type Exec struct {
-	opt        Options
-	threads    []*Thread
-	cur        *Thread
-	yield      chan struct{}
-	chans      map[uintptr]*chState
-	timers     []*chState
-	timerSeq   int
-	now        time.Duration
-	Trace      []Choice
-	Steps      int
-	tearing    bool
-	OnQuiesce  func(e *Exec)
-	Failure    string
-	Panics     []string
-	MaxThreads int
-	Pruned     bool
-	stop       bool
-	inCond     bool
-	Diverged   string
-	HarnessErr string
-	sig        [2]uint64
-	devs       int
-	mutexes    []*Mutex
-	rwmutexes  []*RWMutex
-	envSeq     int
-	Quiescences int
-	Deadlock   string
+	opt          Options
+	threads      []*Thread
+	cur          *Thread
+	yield        chan struct{}
+	chans        map[uintptr]*chState
+	timers       []*chState
+	timerSeq     int
+	now          time.Duration
+	Trace        []Choice
+	Steps        int
+	tearing      bool
+	OnQuiesce    func(e *Exec)
+	Failure      string
+	Panics       []string
+	MaxThreads   int
+	Pruned       bool
+	stop         bool
+	inCond       bool
+	notExploring bool
+	Diverged     string
+	HarnessErr   string
+	sig          [2]uint64
+	devs         int
+	mutexes      []*Mutex
+	rwmutexes    []*RWMutex
+	envSeq       int
+	Quiescences  int
+	Deadlock     string
 }
 
 // E is the current execution (nil outside Run).
@@ -1301,7 +1302,21 @@ func lessPath(a, b []int32) bool {
 
 type divergence struct{ msg string }
 
+// SetExploring switches the recording of choice points off and on. While off, every decision takes
+// its default and is not offered to the explorer: a harness uses this for its set-up phase (e.g. the
+// connection handshake), so that the deviation budget is spent on the phase under study. The state
+// reached is the one the default schedule produces.
+func SetExploring(on bool) {
+	if Native || E == nil {
+		return
+	}
+	E.notExploring = !on
+}
+
 func (e *Exec) choose(kind byte, n int, altCost uint8, sig uint64, alts []string) int {
+	if e.notExploring {
+		return 0
+	}
 	i := len(e.Trace)
 	pick := 0
 	sig = mix(sig, uint64(kind)<<8|uint64(n))
@@ -1406,6 +1421,10 @@ func (e *Exec) resume(t *Thread) {
 	e.cur = t
 	e.Steps++
 	progress++
+	// every scheduling step is an event of its thread: without this, two consecutive choice points
+	// around a bare Point would carry the same state signature and the second would be taken for
+	// an already explored state
+	e.touch()
 	if e.opt.Trace != nil {
 		e.opt.Trace(fmt.Sprintf("t=%v step=%d run %v %s%s", e.now, e.Steps, t, t.Pending(), t.where))
 	}
